@@ -1018,6 +1018,28 @@ type recentStmt struct {
 // runL2PrepareBetween prepares the case's statement, then prepares the given other
 // statements, then runs the case's statement.
 func runL2PrepareBetween(c *l2Case, others []recentStmt) (res *l2Run) {
+	return runL2PrepareAround(c, nil, others)
+}
+
+// wsVariants are texts that differ from the query in white space only (also inside
+// literals and comments, where it matters): whatever was prepared earlier in the process,
+// a statement sends its own bytes.
+func wsVariants(c *l2Case) []recentStmt {
+	q := c.Q
+	var out []recentStmt
+	if strings.Contains(q, " ") {
+		out = append(out, recentStmt{strings.ReplaceAll(q, " ", "  "), c.Samples})
+	}
+	if strings.ContainsAny(q, "\n\t") {
+		out = append(out, recentStmt{strings.NewReplacer("\n", " ", "\t", " ").Replace(q), c.Samples})
+	}
+	out = append(out, recentStmt{" " + q + "\n", c.Samples})
+	return out
+}
+
+// runL2PrepareAround prepares the statements of before, then the case's statement, then
+// those of between, then runs the case's statement.
+func runL2PrepareAround(c *l2Case, before, others []recentStmt) (res *l2Run) {
 	res = &l2Run{mode: "none"}
 	defer func() {
 		if p := recover(); p != nil {
@@ -1026,6 +1048,9 @@ func runL2PrepareBetween(c *l2Case, others []recentStmt) (res *l2Run) {
 	}()
 	env := newL2Env()
 	defer env.db.PlainDB().Close()
+	for _, o := range before {
+		sqlair.Prepare(o.q, o.samples...)
+	}
 	stmt, err := sqlair.Prepare(c.Q, c.Samples...)
 	if err != nil {
 		res.prepErr = err.Error()
@@ -1197,6 +1222,7 @@ func runL2(args []string) {
 		detail := ""
 		valuesStray := ""
 		afterAccepts := "" // arguments a fresh Statement rejects were accepted after a first run (C08)
+		wsChanged := ""    // the SQL of a Statement depends on texts prepared earlier that differ in white space (C01)
 		sqlChanged := ""   // the SQL of a prepared Statement changed when others were prepared (C05 / C04 / C03 too)
 		k2 := func(r *l2Run) string {
 			if r.mode == "none" {
@@ -1278,6 +1304,17 @@ func runL2(args []string) {
 				}
 			}
 			if res.prepOk {
+				// texts differing in white space only prepared earlier in the process
+				r6 := runL2PrepareAround(c, wsVariants(c), nil)
+				if r6.panic == "" && k2(r6) != k2(res) {
+					det = false
+					detail = fmt.Sprintf("a Statement sent something else after texts differing from it in white space only had been prepared: %v vs %v", r6.obs(), res.obs())
+					if r6.sql != res.sql && r6.mode != "none" && res.mode != "none" {
+						wsChanged = detail
+					}
+				}
+			}
+			if res.prepOk {
 				recent = append(recent, recentStmt{c.Q, c.Samples})
 				for len(recent) > 6 {
 					recent = recent[1:]
@@ -1339,6 +1376,9 @@ func runL2(args []string) {
 		if afterAccepts != "" {
 			holds["C08"] = false
 		}
+		if wsChanged != "" {
+			holds["C01"] = false
+		}
 		if sqlChanged != "" {
 			// which expansion changed decides the property besides C16
 			switch {
@@ -1363,6 +1403,9 @@ func runL2(args []string) {
 				}
 				if p == "C08" && afterAccepts != "" {
 					d = afterAccepts
+				}
+				if p == "C01" && wsChanged != "" {
+					d = wsChanged
 				}
 				if (p == "C05" || p == "C04" || p == "C03") && sqlChanged != "" && valuesStray == "" {
 					d = sqlChanged
